@@ -275,6 +275,8 @@ class Runner:
                     viol.append(('C13', 'ansistr_payload', 'payload %r but rendering %r' % (str.__str__(t), t._s.to_str())))
                     # str(a) is a rendering too: it no longer shows the text and styles the object reports
                     viol.append(('C01', 'str_eq', 'str() of an AnsiStr is %r, its to_str() %r' % (str.__str__(t), t._s.to_str())))
+                    if t.is_formatting_valid() and '\x1b' not in t.base_str and T.strip_sgr(str.__str__(t)) != t.base_str:
+                        viol.append(('C15', 'render_strip', 'an AnsiStr reports valid formatting, but stripping the escape sequences of str() %r does not give base_str %r' % (str.__str__(t), t.base_str)))
                     self.tainted = True
             except Exception as e:   # noqa
                 viol.append(('C13', 'ansistr_payload', 'an AnsiStr made earlier can no longer be observed: %r' % (e,)))
